@@ -19,13 +19,14 @@ type qNode struct {
 
 var c07Vars = []string{"a", "b", "c", "i"}
 var c07LetNames = []string{"a", "c", "ij"}
+var c07BindLetNames = []string{"a", "c", "ij", "i"}
 var c07Callees = []string{".u", ".r", ".nope"}
 var c07ParamNames = []string{"", "k", "zz", "q"}
 
 type c07Gen struct {
-	profile int // 0: all node kinds; 1: binding structure only (print, let value, let content, if)
+	profile int // 0: all node kinds; 1: binding structure only (print, let value, let content, if, foreach)
 	budget  int
-	rOrder int // order of the soydoc lines of callee .r: -1 not yet chosen, 0 required first, 1 optional first
+	rOrder  int // order of the soydoc lines of callee .r: -1 not yet chosen, 0 required first, 1 optional first
 }
 
 func (g *c07Gen) v() string { return c07Vars[verifChoose(len(c07Vars))] }
@@ -46,7 +47,7 @@ func (g *c07Gen) node(depth int) *qNode {
 	}
 	k := 0
 	if g.profile == 1 && depth > 0 {
-		k = verifChoose(4)
+		k = verifChoose(5) // print, let value, let content, if, foreach
 	} else {
 		k = verifChoose(kinds)
 	}
@@ -58,6 +59,10 @@ func (g *c07Gen) node(depth int) *qNode {
 		}
 		return n
 	case 1:
+		if g.profile == 1 {
+			// (also a let named like the loop variable)
+			return &qNode{kind: 1, name: c07BindLetNames[verifChoose(len(c07BindLetNames))]}
+		}
 		return &qNode{kind: 1, name: c07LetNames[verifChoose(len(c07LetNames))]}
 	case 2:
 		return &qNode{kind: 2, name: c07LetNames[verifChoose(2)], body: g.list(depth-1, 2)}
@@ -277,9 +282,9 @@ func H_datarefs(depth, budget int, declA, declB bool) { c07Run(depth, budget, de
 func H_datarefsLate(depth, budget, late int) { c07Run(depth, budget, true, true, late) }
 
 // H_datarefsBind: the generator restricted to binding structure (print, let value, let content,
-// if; no calls or loops), which affords one more node: sequences such as reference / shadowing
+// if, foreach; lets may be named like the loop variable; no calls), which affords one more node: sequences such as reference / shadowing
 // let / reference.
-func H_datarefsBind(depth, budget int, declB bool) { c07Run(depth, budget, true, declB, -1) }
+func H_datarefsBind(depth, budget int, declA, declB bool) { c07Run(depth, budget, declA, declB, -1) }
 
 func c07Run(depth, budget int, declA, declB bool, late int) {
 	g := &c07Gen{budget: budget, rOrder: -1}
